@@ -24,6 +24,29 @@ type Decoder struct {
 
 	// see Decoder.ExpectTypesInInterface description
 	expectedTypes []reflect.Type
+
+	// how many objects deep the decoder is right now, see maxNestingDepth
+	depth int
+}
+
+// maxNestingDepth limits how deep objects in the input may be nested in each other. Every level costs a few
+// stack frames of the decoder, and the level count is chosen by whoever made the input (four bytes of input per
+// level are enough), so without a limit a few megabytes of input overflow the stack, which is not recoverable.
+// Nothing in any schema nests deeper than a few dozens of levels.
+const maxNestingDepth = 1000
+
+// enterObject must be called (and paired with leaveObject) around decoding of each nested object
+func (d *Decoder) enterObject() bool {
+	d.depth++
+	if d.depth > maxNestingDepth {
+		d.err = fmt.Errorf("objects are nested deeper than %v levels", maxNestingDepth)
+		return false
+	}
+	return true
+}
+
+func (d *Decoder) leaveObject() {
+	d.depth--
 }
 
 // NewDecoder returns a new decoder that reads from r.
